@@ -3,6 +3,8 @@ package props
 import (
 	"bytes"
 	"fmt"
+	"os"
+	"os/exec"
 	"reflect"
 	"runtime"
 	"sort"
@@ -59,9 +61,9 @@ type c18Obj struct {
 	p       rtcp.Packet
 	backing []byte // the caller-owned array of which buf is a prefix
 	buf     []byte
-	target rtcp.Packet // reusable decode target (private objects)
-	base   [numOps]uint64
-	valid  [numOps]bool
+	target  rtcp.Packet // reusable decode target (private objects)
+	base    [numOps]uint64
+	valid   [numOps]bool
 }
 
 func resetPacket(p rtcp.Packet) {
@@ -510,7 +512,9 @@ func indexOf(s []*c18Obj, o *c18Obj) int {
 	return 0
 }
 
-func containsXRFast(o *c18Obj) bool { return o.kind == gen.XR || (o.kind == gen.Compound && containsXR(o.p)) }
+func containsXRFast(o *c18Obj) bool {
+	return o.kind == gen.XR || (o.kind == gen.Compound && containsXR(o.p))
+}
 
 // countOverlaps counts pairs of operations on the same shared object whose [t0,t1] intervals
 // (monotonic clock, merged after the join) intersect.
@@ -542,8 +546,90 @@ func countOverlaps(all []c18Interval) uint64 {
 	return n
 }
 
+// c18FreshObjects builds the objects of one fresh-process case; the same code runs in the
+// long-lived worker (after thousands of other calls) and in a fresh child process (as its very
+// first library calls). Every baseline digest must be identical in both.
+func c18FreshObjects(seed, idx uint64) []uint64 {
+	r := core.CaseRand(seed, "C18", "fresh-process", idx)
+	var out []uint64
+	for i := 0; i < 3; i++ {
+		k := gen.Kind(r.Intn(int(gen.NumKinds)))
+		if i == 0 {
+			k = gen.XR // the reflection-driven codec is the likeliest place for a type-keyed cache
+		}
+		o := newObjFlav(r, k, false, flavGenerated)
+		out = append(out, core.Digest(o.buf))
+		for op := opKind(0); op < numOps; op++ {
+			if o.valid[op] {
+				out = append(out, o.base[op])
+			} else {
+				out = append(out, 0)
+			}
+		}
+	}
+	return out
+}
+
+// C18FreshMain is the entry point of the fresh child process: prints the digests.
+func C18FreshMain(args []string) int {
+	var seed, idx uint64
+	if len(args) != 2 {
+		return 2
+	}
+	fmt.Sscan(args[0], &seed)
+	fmt.Sscan(args[1], &idx)
+	for _, d := range c18FreshObjects(seed, idx) {
+		fmt.Printf("%x ", d)
+	}
+	fmt.Println()
+	return 0
+}
+
+func c18FreshSection(c *core.Ctx, n uint64) {
+	exe, err := os.Executable()
+	if err != nil {
+		c.Res.HarnessErrors = append(c.Res.HarnessErrors, "fresh-process: "+err.Error())
+		return
+	}
+	c.Section("fresh-process", n, func(cs *core.Case) {
+		here := c18FreshObjects(c.Seed, cs.Idx)
+		out, err := exec.Command(exe, "c18fresh", fmt.Sprint(c.Seed), fmt.Sprint(cs.Idx)).Output()
+		if err != nil {
+			c.Res.HarnessErrors = append(c.Res.HarnessErrors, "fresh-process child failed: "+err.Error())
+			return
+		}
+		var there []uint64
+		for _, f := range bytes.Fields(out) {
+			var d uint64
+			fmt.Sscanf(string(f), "%x", &d)
+			there = append(there, d)
+		}
+		cs.Eval(uint64(len(here)))
+		cs.Count("fresh-process-comparisons")
+		cs.Distinct(core.DigestStr("fresh", fmt.Sprint(here)))
+		if len(here) != len(there) {
+			c.Res.HarnessErrors = append(c.Res.HarnessErrors, fmt.Sprintf("fresh-process: %d vs %d digests", len(here), len(there)))
+			return
+		}
+		for i := range here {
+			if here[i] != there[i] {
+				per := 1 + int(numOps)
+				what := "input buffer (Marshal of the generated value)"
+				if i%per > 0 {
+					what = opNames[i%per-1]
+				}
+				cs.Fail("history/differs-from-fresh-process/"+what, core.W{"object": i / per, "operation": what,
+					"note":        "the result obtained in this long-lived worker (after many unrelated calls) differs from the result of the same calls made first thing in a fresh process: the package keeps state across calls",
+					"replay_hint": fmt.Sprintf("objects are regenerated from (seed %d, section fresh-process, index %d)", c.Seed, cs.Idx)})
+				return
+			}
+		}
+	})
+}
+
 func runC18(c *core.Ctx) {
 	c18Sequential(c)
+	c18FreshSection(c, c.N(2400, 60000))
 	// the same concurrent workload without the race detector: results only, more volume
 	reps := c.N(2, 12)
 	c.Section("concurrent-plain", uint64(len(c18Configs))*reps, func(cs *core.Case) {
